@@ -235,6 +235,9 @@ func (p *c08) pkg(k int) (files map[string]string, kind string) {
 		if r.Chance(1, 3) {
 			files["util.xgo"] = "func helper(x int) int { return x + 1 }\n"
 		}
+		if r.Chance(1, 2) { // a second project file, of another class framework: project files must load in sorted order
+			files["App.t2gmx"] = "func onStart() {\n\techo \"app" + fmt.Sprint(k%5) + "\"\n}\n"
+		}
 	default:
 		kind = "corpus"
 		it := p.pool[r.Intn(len(p.pool))]
